@@ -60,6 +60,7 @@ type clause struct {
 }
 
 type loopSpec struct {
+	hintMismatch bool // the loop header no longer contains the hint (and not by a pure renaming)
 	ord      int
 	hint     string
 	invs     []*clause
